@@ -922,8 +922,9 @@ func (o Object) Equals(with Item) bool {
 				return nil
 			}
 		}
-		if w.URL != nil {
-			if o.URL == nil {
+		// NOTE: a typed nil pointer in the url property is nothing, like the untyped nil
+		if !IsNil(w.URL) {
+			if IsNil(o.URL) {
 				result = false
 				return nil
 			}
